@@ -1,6 +1,7 @@
 package util
 
 import (
+	"io"
 	"os"
 	"path/filepath"
 	"sort"
@@ -49,16 +50,23 @@ func ReadFileAt(dir *os.File, filename string) ([]byte, error) {
 		return nil, serr
 	}
 	buf := make([]byte, stat.Size)
-	n, rerr := unix.Read(fd, buf)
-	if rerr != nil {
-		unix.Close(fd)
-		return nil, rerr
-	}
-	if n != len(buf) {
-		buf = buf[:n]
+	total := 0
+	for total < len(buf) { // read(2) may return less than requested
+		n, rerr := unix.Read(fd, buf[total:])
+		if rerr == unix.EINTR {
+			continue
+		}
+		if rerr != nil {
+			unix.Close(fd)
+			return nil, rerr
+		}
+		if n <= 0 {
+			break
+		}
+		total += n
 	}
 	unix.Close(fd)
-	return buf, nil
+	return buf[:total], nil
 }
 
 // StatFileAt queries the stat of an existing file in given directory
@@ -74,15 +82,50 @@ func UnlinkFileAt(dir *os.File, filename string) error {
 }
 
 // WriteFileAt writes to a new file in given directory
+//
+// The data is written to a temporary name (filename + TempFileSuffix) and renamed once it is completely written, so
+// that a file under the given name is always complete, whatever I/O error or crash happens in between.
 func WriteFileAt(dir *os.File, filename string, data []byte, perm os.FileMode) error {
-	fd, oerr := unix.Openat(int(dir.Fd()), filename, unix.O_WRONLY|unix.O_CREAT|unix.O_TRUNC, uint32(perm))
+	dirFd := int(dir.Fd())
+	tempname := filename + TempFileSuffix
+	fd, oerr := unix.Openat(dirFd, tempname, unix.O_WRONLY|unix.O_CREAT|unix.O_TRUNC, uint32(perm))
 	if oerr != nil {
 		return oerr
 	}
 	vhook.K("wfa.afterOpen")
-	_, werr := unix.Write(fd, data)
+	werr := writeAll(fd, data)
 	vhook.K("wfa.afterWrite")
-	unix.Close(fd)
+	if cerr := unix.Close(fd); werr == nil {
+		werr = cerr
+	}
 	vhook.K("wfa.afterClose")
+	if werr == nil {
+		werr = unix.Renameat(dirFd, tempname, dirFd, filename)
+	}
+	if werr != nil {
+		_ = unix.Unlinkat(dirFd, tempname, 0)
+	}
 	return werr
+}
+
+// TempFileSuffix is appended to the name of a file while it's being written by WriteFileAt
+const TempFileSuffix = ".tmp"
+
+// writeAll writes all of data or returns an error; write(2) may write less than requested, e.g. when a space or
+// file size limit is reached, in which case the next attempt reports the actual error
+func writeAll(fd int, data []byte) error {
+	for len(data) > 0 {
+		n, werr := unix.Write(fd, data)
+		if werr == unix.EINTR {
+			continue
+		}
+		if werr != nil {
+			return werr
+		}
+		if n <= 0 {
+			return io.ErrShortWrite
+		}
+		data = data[n:]
+	}
+	return nil
 }
